@@ -9,6 +9,7 @@ import (
 	"math/big"
 	"strings"
 	"sync"
+	"sync/atomic"
 	"testing"
 	"testing/synctest"
 	"time"
@@ -22,6 +23,7 @@ import (
 	v2coord "github.com/smartcontractkit/chainlink-automation/pkg/v2/coordinator"
 	v2enc "github.com/smartcontractkit/chainlink-automation/pkg/v2/encoding"
 	"github.com/smartcontractkit/chainlink-automation/pkg/v2/observer/polling"
+	v2runner "github.com/smartcontractkit/chainlink-automation/pkg/v2/runner"
 )
 
 // C16 — OCR2 (v2) reports: robust median block, eligible upkeeps once, limits kept.
@@ -30,7 +32,8 @@ import (
 //   - encoder   : the repository's BasicEncoder (validation, median, key building, split/after/increment)
 //                 wrapped with Eligible/Detail/EncodeReport/KeysFromReport over a harness result type;
 //                 EncodeReport records what it is handed;
-//   - runner    : programmable, records the keys it is asked to check;
+//   - runner    : programmable, records the keys it is asked to check; or (c16Input.Reg, c16_reg_test.go) the
+//                 repository's v2 runner (runner.NewRunner) in front of a scripted registry;
 //   - coordinator: the repository's reportCoordinator (real mode) or a programmable one, both behind a
 //                 wrapper recording every IsPending answer;
 //   - observer  : the repository's PollingObserver (head ticker, registry and runner are fakes).
@@ -87,6 +90,8 @@ type c16Script struct {
 	RunErr bool      `json:"runErr"`
 	EncErr bool      `json:"encErr"`
 	Items  []c16Item `json:"items"`
+	// an answer without results is the nil slice (and no error) instead of an empty one
+	NilRes bool `json:"nilRes,omitempty"`
 }
 
 type c16HeadRes struct {
@@ -109,6 +114,9 @@ type c16Head struct {
 	// with After: the key (block|id) that observation listed is then accepted as a finalized report would be
 	// (ShouldAcceptFinalizedReport -> Coordinator.Accept) and Observation() is called once more, same head
 	AcceptAfter bool `json:"acceptAfter"`
+	// what is handed to ShouldAcceptFinalizedReport / ShouldTransmitAcceptedReport then: "" the report of that key |
+	// "empty" no bytes | "garbage" bytes the encoder cannot decode | "nokeys" a report without a key
+	AcceptKind string `json:"acceptKind,omitempty"`
 	// with MidAt reached: the observer stays parked inside that Eligible call for StallMs of virtual time (a slow
 	// encoder / result decoding), e.g. longer than the per-head sampling window, before it goes on
 	StallMs int64 `json:"stallMs"`
@@ -117,6 +125,13 @@ type c16Head struct {
 	// MidAt / After of such a head are not used when a next head is queued behind it; a head queued that way does not
 	// use its own MidAt / SlowRun.
 	SlowRun bool `json:"slowRun"`
+	// with c16Input.Reg (the repository's v2 runner between the observer and a scripted registry): RunErr / Results
+	// are not used; the registry answers the check calls (RPC batches of <= 10 keys) of this head from
+	//   Status  : per active upkeep id 1..Active  e eligible | i ineligible | p paused / cancelled (NO result) |
+	//             x eligibility error | d detail error            (ids beyond the list: p)
+	//   Batches : how the k-th call is answered (calls beyond the list: kind "key")
+	Status  string     `json:"status,omitempty"`
+	Batches []c16Batch `json:"batches,omitempty"`
 }
 
 // c16Prior: an earlier plugin instance created by the SAME factory (libocr keeps one factory per job and
@@ -137,6 +152,16 @@ type c16Input struct {
 	Obs    []string  `json:"obs"`    // report: attributed observations, raw bytes as hex
 	Script c16Script `json:"script"` // report: how the report-time check answers
 	Heads  []c16Head `json:"heads"`  // obs: heads processed before Observation is called
+	// non-nil: plugin and observer get the repository's v2 runner (runner.NewRunner: worker group, batches of 10,
+	// result cache) and the harness scripts the REGISTRY behind it; nil: the runner itself is the harness fake
+	Reg *c16Reg `json:"reg,omitempty"`
+	// block keys / identifiers the plugin's validator refuses without an error, (false, nil)
+	Deny []string `json:"deny,omitempty"`
+	// obs: after the last head the conditional observer's Observe fails once (Observation must return the error)
+	ObsFail bool `json:"obsFail,omitempty"`
+	// enc: direct calls of the repository's BasicEncoder
+	Blocks []string  `json:"blocks,omitempty"` // GetMedian(blocks)
+	Keys   []*string `json:"keys,omitempty"`   // SplitUpkeepKey / ValidateUpkeepKey on each (null = the nil key)
 }
 
 type c16Dec struct {
@@ -172,7 +197,13 @@ type c16Impl struct {
 	Seen      []c16Seen `json:"seen"` // IsPending answers in call order
 	// obs: one entry per Observation() call, in call order; the last one is the final call after all heads
 	Points []c16Point `json:"points"`
-	Setup  string     `json:"setup,omitempty"` // harness-level problem (should stay empty)
+	// with Reg: every registry call in the order the calls returned
+	Calls []c16Call `json:"calls,omitempty"`
+	// obs: every ShouldAcceptFinalizedReport / ShouldTransmitAcceptedReport pair the harness made
+	Accepts []c16Accept `json:"accepts,omitempty"`
+	// enc
+	Enc *c16EncOut `json:"enc,omitempty"`
+	Setup string    `json:"setup,omitempty"` // harness-level problem (should stay empty)
 }
 
 // c16Point is one Observation() call: N = number of heads completely processed before it
@@ -204,6 +235,7 @@ type c16Result struct {
 
 type c16Enc struct {
 	v2enc.BasicEncoder
+	deny    map[string]bool
 	mu      sync.Mutex
 	encErr  bool
 	encoded [][]c16Result
@@ -273,7 +305,26 @@ func (e *c16Enc) Detail(r v2.UpkeepResult) (v2.UpkeepKey, uint32, error) {
 	if x.DetailErr {
 		return nil, 0, errors.New("c16: detail failure")
 	}
+	if x.Key == "" {
+		return nil, x.Gas, nil // a result without a key: the nil key
+	}
 	return v2.UpkeepKey(x.Key), x.Gas, nil
+}
+
+// chain-specific validation on top of the BasicEncoder's: values on the deny list are refused WITHOUT an error,
+// (false, nil), which Observation.Validate turns into ErrInvalidBlockKey / ErrInvalidUpkeepIdentifier
+func (e *c16Enc) ValidateBlockKey(b v2.BlockKey) (bool, error) {
+	if e.deny[string(b)] {
+		return false, nil
+	}
+	return e.BasicEncoder.ValidateBlockKey(b)
+}
+
+func (e *c16Enc) ValidateUpkeepIdentifier(id v2.UpkeepIdentifier) (bool, error) {
+	if e.deny[string(id)] {
+		return false, nil
+	}
+	return e.BasicEncoder.ValidateUpkeepIdentifier(id)
 }
 
 type c16Runner struct {
@@ -441,17 +492,35 @@ type c16Node struct {
 	heads  *c16Heads
 	src    *c16Source
 	ts     ocr2types.ReportTimestamp
+	obsFail *atomic.Bool   // the conditional observer's Observe fails while set
+	reg    *c16Registry    // with c16Input.Reg
+	rn     *v2runner.Runner // with c16Input.Reg
 }
 
 func c16NewNode(in c16Input) (*c16Node, error) {
-	n := &c16Node{enc: &c16Enc{encErr: in.Script.EncErr}, run: &c16Runner{}, heads: &c16Heads{ch: make(chan v2.BlockKey)}, src: &c16Source{}}
+	n := &c16Node{enc: &c16Enc{encErr: in.Script.EncErr, deny: map[string]bool{}}, run: &c16Runner{}, heads: &c16Heads{ch: make(chan v2.BlockKey)}, src: &c16Source{}, obsFail: new(atomic.Bool)}
+	for _, d := range in.Deny {
+		n.enc.deny[d] = true
+	}
 	logs := &c16Logs{}
 	for _, p := range in.Coord.Performs {
 		logs.performs = append(logs.performs, v2.PerformLog{Key: v2.UpkeepKey(p.Key), TransmitBlock: v2.BlockKey(p.TBlock), Confirmations: p.Conf, TransactionHash: "0xc16"})
 	}
 	n.cf = &c16CoordFactory{in: in.Coord, logs: logs}
-	of := &polling.PollingObserverFactory{Logger: quietLogger, Source: n.src, Heads: n.heads, Runner: n.run, Encoder: n.enc}
-	fac := v2.NewReportingPluginFactory(n.enc, n.run, n.cf, of, quietLogger)
+	var rnr v2.Runner = n.run
+	if in.Reg != nil {
+		// one runner per job, shared by Report and the observer of every instance (as the node wires it); it has an
+		// encoder of its own (no gate, no call counting)
+		n.reg = &c16Registry{}
+		rn, err := v2runner.NewRunner(quietLogger, n.reg, &c16PlainEnc{}, in.Reg.Workers, in.Reg.Queue, 20*time.Minute, 30*time.Second)
+		if err != nil {
+			return nil, err
+		}
+		_ = rn.Start()
+		n.rn, rnr = rn, rn
+	}
+	of := &c16ObsFactory{inner: &polling.PollingObserverFactory{Logger: quietLogger, Source: n.src, Heads: n.heads, Runner: rnr, Encoder: n.enc}, fail: n.obsFail}
+	fac := v2.NewReportingPluginFactory(n.enc, rnr, n.cf, of, quietLogger)
 	var digest ocr2types.ConfigDigest
 	for i := 0; i < 8; i++ {
 		digest[i] = byte(in.Digest >> (8 * i))
@@ -475,20 +544,25 @@ func c16NewNode(in c16Input) (*c16Node, error) {
 		if err == nil {
 			synctest.Wait()
 			if cerr := old.Close(); cerr != nil {
+				n.closeRunner()
 				return nil, fmt.Errorf("prior instance %d: close: %v", i, cerr)
 			}
 			synctest.Wait()
 		}
 		if (err != nil) != pr.Bad {
+			n.closeRunner()
 			return nil, fmt.Errorf("prior instance %d: undecodable config=%v but NewReportingPlugin err=%v", i, pr.Bad, err)
 		}
 	}
 	pc.OffchainConfig = confOf(in.Cfg)
 	p, info, err := fac.NewReportingPlugin(context.Background(), pc)
 	if err != nil {
+		n.closeRunner()
 		return nil, err
 	}
 	if info.Limits.MaxObservationLength != v2.MaxObservationLength {
+		_ = p.Close()
+		n.closeRunner()
 		return nil, fmt.Errorf("advertised MaxObservationLength %d", info.Limits.MaxObservationLength)
 	}
 	n.plugin, n.fac, n.pc = p, fac, pc
@@ -536,6 +610,7 @@ func c16Run(t *testing.T, in c16Input) (impl c16Impl) {
 			impl.Setup += " close: " + err.Error()
 		}
 		synctest.Wait()
+		node.closeRunner()
 	}()
 	ctx := context.Background()
 	// coordinator state (real mode): accept keys as a finalized report would, let the log poller run
@@ -583,13 +658,17 @@ func c16Run(t *testing.T, in c16Input) (impl c16Impl) {
 			p.Seen = append([]c16Seen{}, node.cf.rec.take()...)
 			impl.Points = append(impl.Points, p)
 		}
-		setHead := func(hh c16Head, park chan struct{}, parked *bool) {
+		setHead := func(hi int, hh c16Head, park chan struct{}, parked *atomic.Bool) {
 			node.src.mu.Lock()
 			node.src.n, node.src.err = hh.Active, hh.SrcErr
 			node.src.mu.Unlock()
+			if node.reg != nil {
+				node.reg.setHead(hi, hh, park, parked)
+				return
+			}
 			node.run.set(func([]string) ([]v2.UpkeepResult, error) {
 				if park != nil {
-					*parked = true
+					parked.Store(true)
 					<-park // the RPC of this head is still pending
 				}
 				if hh.RunErr {
@@ -607,13 +686,13 @@ func c16Run(t *testing.T, in c16Input) (impl c16Impl) {
 			wasQueued := queued
 			queued = false
 			var park chan struct{}
-			parked := false
+			parked := new(atomic.Bool)
 			slow := h.SlowRun && !wasQueued
 			if !wasQueued {
 				if slow {
 					park = make(chan struct{})
 				}
-				setHead(h, park, &parked)
+				setHead(i, h, park, parked)
 				if slow {
 					node.enc.arm(0)
 				} else {
@@ -622,11 +701,11 @@ func c16Run(t *testing.T, in c16Input) (impl c16Impl) {
 				node.heads.ch <- v2.BlockKey(h.Block)
 				synctest.Wait() // head processed completely, or the observer is parked (runner / gated Eligible call)
 			}
-			if slow && parked {
+			if slow && parked.Load() {
 				observe(i, "parked")
 				if i+1 < len(in.Heads) {
 					next := in.Heads[i+1]
-					setHead(next, nil, nil)
+					setHead(i+1, next, nil, nil)
 					go func() { node.heads.ch <- v2.BlockKey(next.Block) }() // the head ticker delivers the next head
 					synctest.Wait()
 					observe(i, "queued")
@@ -656,18 +735,43 @@ func c16Run(t *testing.T, in c16Input) (impl c16Impl) {
 			if h.After {
 				observe(i+1, "after")
 				if h.AcceptAfter {
-					if lastKey != "" {
-						rep, _ := json.Marshal([]string{lastKey})
-						if ok, err := node.plugin.ShouldAcceptFinalizedReport(ctx, node.ts, rep); err != nil || !ok {
-							impl.Setup += fmt.Sprintf(" accept %q: %v %v", lastKey, ok, err)
+					var rep []byte
+					switch h.AcceptKind {
+					case "":
+						if lastKey != "" {
+							rep, _ = json.Marshal([]string{lastKey})
 						}
-						accepted = append(accepted, lastKey)
+					case "empty":
+						rep = []byte{}
+					case "garbage":
+						rep = []byte("{not a report")
+					case "nokeys":
+						rep = []byte("[]")
+					}
+					if rep != nil {
+						a := c16Accept{N: i + 1, Kind: h.AcceptKind}
+						ok, err := node.plugin.ShouldAcceptFinalizedReport(ctx, node.ts, rep)
+						a.Ok, a.Err = ok, err != nil
+						ok, err = node.plugin.ShouldTransmitAcceptedReport(ctx, node.ts, rep)
+						a.TxOk, a.TxErr = ok, err != nil
+						impl.Accepts = append(impl.Accepts, a)
+						if h.AcceptKind == "" {
+							if !a.Ok || a.Err {
+								impl.Setup += fmt.Sprintf(" accept %q: %v %v", lastKey, a.Ok, a.Err)
+							}
+							accepted = append(accepted, lastKey)
+						}
 					}
 					observe(i+1, "after2")
 				}
 			}
 		}
 		observe(len(in.Heads), "final")
+		if in.ObsFail {
+			node.obsFail.Store(true)
+			observe(len(in.Heads), "failing")
+			node.obsFail.Store(false)
+		}
 		// another instance of the same factory in the same process (config change: libocr starts the successor)
 		// encodes an observation of its own
 		if succ, _, err := node.fac.NewReportingPlugin(ctx, node.pc); err != nil {
@@ -686,6 +790,9 @@ func c16Run(t *testing.T, in c16Input) (impl c16Impl) {
 		for i := range impl.Points {
 			impl.Points[i].OutEnd = hx(held[i])
 		}
+		if node.reg != nil {
+			impl.Calls = node.reg.taken()
+		}
 		return impl
 	}
 
@@ -697,7 +804,7 @@ func c16Run(t *testing.T, in c16Input) (impl c16Impl) {
 		attributed = append(attributed, ocr2types.AttributedObservation{Observation: raw, Observer: commontypes.OracleID(i)})
 	}
 	var answered []c16Result
-	node.run.set(func(asked []string) ([]v2.UpkeepResult, error) {
+	answer := func(asked []string) ([]v2.UpkeepResult, error) {
 		if in.Script.RunErr {
 			return nil, errors.New("c16: check failure")
 		}
@@ -716,8 +823,16 @@ func c16Run(t *testing.T, in c16Input) (impl c16Impl) {
 			answered = append(answered, r)
 			out = append(out, r)
 		}
+		if in.Script.NilRes && len(out) == 0 {
+			return nil, nil
+		}
 		return out, nil
-	})
+	}
+	if node.reg != nil {
+		node.reg.setReport(answer)
+	} else {
+		node.run.set(answer)
+	}
 	var (
 		ok       bool
 		rep      ocr2types.Report
@@ -735,6 +850,14 @@ func c16Run(t *testing.T, in c16Input) (impl c16Impl) {
 	node.run.mu.Lock()
 	calls := node.run.calls
 	node.run.mu.Unlock()
+	if node.reg != nil {
+		// at most ReportKeysLimit = 10 keys: one batch, i.e. one registry call with the keys CheckUpkeep was handed
+		impl.Calls = node.reg.taken()
+		calls = nil
+		for _, c := range impl.Calls {
+			calls = append(calls, c.Keys)
+		}
+	}
 	if len(calls) > 1 {
 		impl.Setup += " CheckUpkeep called more than once"
 	}
@@ -772,7 +895,7 @@ func c16Run(t *testing.T, in c16Input) (impl c16Impl) {
 		impl.Status = "errNotEnoughInputs"
 	case errors.Is(err, v2.ErrTooManyErrors):
 		impl.Status = "errTooManyErrors"
-	case strings.Contains(err.Error(), "c16: check failure"):
+	case strings.Contains(err.Error(), "c16: check failure"), errors.Is(err, v2runner.ErrTooManyErrors):
 		impl.Status = "errRunner"
 	case strings.Contains(err.Error(), "unexpected number of upkeeps returned"):
 		impl.Status = "errTooManyResults"
@@ -997,6 +1120,7 @@ func c16GenScript(r *Rng, c c16Cfg, em *Emitter) c16Script {
 		return s
 	case 1:
 		em.Hit("script=empty")
+		s.NilRes = r.Bool()
 		return s
 	}
 	s.EncErr = r.Chance(3)
@@ -1266,6 +1390,18 @@ func c16GenReport(r *Rng, em *Emitter) c16Input {
 	}
 	in.Coord = c16GenCoord(r, pool, validBlocks, em)
 	in.Script = c16GenScript(r, in.Cfg, em)
+	if r.Chance(20) { // the report-time check goes through the repository's runner to a scripted registry
+		em.Hit("report=registry-level")
+		in.Reg = c16GenReg(r)
+	}
+	if r.Chance(8) { // the validator refuses one of the values in use without an error
+		em.Hit("report=validator-refuses")
+		if r.Bool() && len(validBlocks) > 0 {
+			in.Deny = []string{validBlocks[r.Intn(len(validBlocks))]}
+		} else {
+			in.Deny = []string{pool[r.Intn(len(pool))]}
+		}
+	}
 	return in
 }
 
@@ -1290,11 +1426,13 @@ func c16GenObsShift(r *Rng, em *Emitter) c16Input {
 		h.AcceptAfter = h.After && r.Chance(50)
 		blocks = append(blocks, h.Block)
 		cur := make([]bool, np)
-		kind := r.Intn(4)
+		kind := r.Intn(5)
 		if hi == 0 {
 			kind = 3
 		}
 		switch kind {
+		case 4: // everything vanished: the check answers with no result at all
+			em.Hit("shift=vanish")
 		case 0: // shrinking: some of the previously eligible upkeeps were performed
 			em.Hit("shift=shrink")
 			for i := range cur {
@@ -1329,6 +1467,9 @@ func c16GenObsShift(r *Rng, em *Emitter) c16Input {
 			order = append(a, b...)
 		}
 		for _, i := range order {
+			if kind == 4 {
+				break
+			}
 			h.Results = append(h.Results, c16HeadRes{Key: h.Block + "|" + pool[i], Eligible: cur[i]})
 		}
 		if hi > 0 && r.Chance(85) {
@@ -1367,6 +1508,25 @@ func c16GenObsShift(r *Rng, em *Emitter) c16Input {
 }
 
 func c16GenObs(r *Rng, em *Emitter) c16Input {
+	in := c16GenObs0(r, em)
+	for i := range in.Heads {
+		if in.Heads[i].AcceptAfter && r.Chance(25) { // a report the plugin must refuse instead of the observed key's
+			in.Heads[i].AcceptKind = []string{"empty", "garbage", "nokeys"}[r.Intn(3)]
+			em.Hit("accept=" + in.Heads[i].AcceptKind)
+		}
+	}
+	if r.Chance(10) {
+		in.ObsFail = true
+		em.Hit("observer-fails-once")
+	}
+	return in
+}
+
+func c16GenObs0(r *Rng, em *Emitter) c16Input {
+	if r.Chance(30) {
+		em.Hit("obs=registry-level")
+		return c16GenObsReg(r, em)
+	}
 	if r.Chance(50) {
 		em.Hit("obs=shifting-heads")
 		return c16GenObsShift(r, em)
@@ -1608,6 +1768,10 @@ func TestC16(t *testing.T) {
 	em := NewEmitter(t, "C16")
 	defer em.Close()
 	run := func(src string, in c16Input) {
+		if in.Mode == "enc" {
+			em.Emit(src, in, c16RunEnc(in))
+			return
+		}
 		synctest.Test(t, func(t *testing.T) {
 			impl := c16Run(t, in)
 			if impl.Setup != "" {
@@ -1630,10 +1794,19 @@ func TestC16(t *testing.T) {
 	for _, in := range c16Edge() {
 		run("edge", in)
 	}
+	for _, in := range c16EdgeReg() {
+		run("edge", in)
+	}
+	for _, in := range c16EdgeMore() {
+		run("edge", in)
+	}
 	r := NewRng(seed())
 	n := tierN(20000, 400000)
 	for i := 0; i < n; i++ {
-		if i%5 == 4 {
+		if i%100 == 99 {
+			em.Hit("mode=enc")
+			run("gen", c16GenEnc(r, em))
+		} else if i%5 == 4 {
 			em.Hit("mode=obs")
 			run("gen", c16GenObs(r, em))
 		} else {
